@@ -20,6 +20,11 @@ const modPath = "github.com/mholt/caddy-l4"
 
 // Ctx is the loaded, type-checked and SSA-converted program.
 type Ctx struct {
+	provers   map[*ssa.Function]*prover
+	ipDepth   int
+	retCases  map[*ssa.Function][]retCase
+	retQs     map[*ssa.Function][]quantity
+	retOK     map[*ssa.Function]bool
 	callSites map[*ssa.Function][]ssa.CallInstruction
 	fnEscapes map[*ssa.Function]bool
 	Repo      string
